@@ -299,6 +299,12 @@ let run (ops : 'i idx_ops) (dump_index : 'i -> unit) (check_inv : params -> 'i s
              Printf.printf "iternext %s %s\n" (hex_of_bytes k) (hex_of_bytes v))
     | ["dump"] -> dump_state ops !st
     | ["dumprecs"] -> dump_recs !st
+    | ["segbytes"] ->
+        let parts = List.map (fun f ->
+          let bs = if f.f_hdr then header_bytes @ List.concat (List.map encode_rec f.f_recs) @ f.f_tail else [] in
+          Printf.sprintf "%s:%d:%s" (name_of (FSeg (f.f_id, f.f_seq))) (List.length bs)
+            (Digest.to_hex (Digest.string (string_of_bytes bs)))) !st.s_disk.d_segs in
+        Printf.printf "segbytes %s\n" (String.concat "," (List.sort compare parts))
     | ["checkinv"] ->
         (match check_inv !params !st with
          | Some true -> print_string "checkinv ok\n"
@@ -363,9 +369,10 @@ let run (ops : 'i idx_ops) (dump_index : 'i -> unit) (check_inv : params -> 'i s
         (* append raw bytes to a segment file (damage after a crash) *)
         let id = n_of_int (int_of_string id) and seq = n_of_int (int_of_string seq) in
         let d = !st.s_disk in
+        if not (List.exists (fun f -> f.f_id = id && f.f_seq = seq) d.d_segs) then print_string "appendraw nofile\n" else begin
         st := { !st with s_disk = { d with d_segs = List.map (fun f ->
           if f.f_id = id && f.f_seq = seq then { f with f_tail = f.f_tail @ bytes_of_hex hex } else f) d.d_segs } };
-        print_string "appendraw ok\n"
+        print_string "appendraw ok\n" end
     | ["setlock"; b] ->
         st := { !st with s_disk = { !st.s_disk with d_lock = (b = "1") } }; print_string "setlock ok\n"
     | ["parse"; hex] ->
